@@ -90,6 +90,10 @@ def g_lattice(tier: str) -> List[Any]:
     for g, pk, _genuine in dg.reverse_universes():
         for db in ("Forest", "ForestNR", "RuleDB"):
             res.append(GCfg(g, (), pk, db))
+    # a verified class with a pack on offer that needs a reverse rule to be expanded
+    for g, pk in dg.expand_universes():
+        for db in ("Forest", "RuleDB"):
+            res.append(GCfg(g, (), pk, db))
     if tier == "quick":
         for g in dg.grammars("one"):
             for db in ("RuleDB", "Forest"):
